@@ -29,6 +29,18 @@ CLAIMED = {
          "reflexivity, transitivity of < and ==, congruence, by-value comparison of arithmetic domains, unrelated named domains never equal.",
          "The address order of the domain objects is the native build's (read at check time); strings, sequences, address sets, DIEs, stacks and the "
          "alias table of comparison words are outside this check.", '6/C09'),
+ 'C11': ("Kernel of the clause 'word behaviour depends only on the values near the top of the stack': stack::push/pop/drop keep the cached type "
+         "profile (top four slots) equal to the list model at every depth 0..6 for symbolic type codes (one inductive step per depth), and a "
+         "selector of 1..4 type codes (0 = any) matches a stack profile iff the top k type codes agree.",
+         "The word implementations themselves (length, elem, relem, add, ?find, ?starts, ?ends, ?match, value, hex/dec/oct/bin, type, pos, shuffles) "
+         "are NOT covered: they are overload instantiations over std::string / std::vector heaps that were not reached (DESIGN 0.4).", '0.3'),
+ 'C13': ("(1) layout::reserve/add_union: every series of 4 reservations (size 1..64, alignment 1..16) yields aligned, pairwise disjoint locations "
+         "inside size(), add_union takes the maximum -- no two live states overlap in the shared area. (2) The real ALT / OR (thorough: also "
+         "if-then-else, nested ALT) operator graphs with the result set abandoned after 0..4 pulls and torn down, every valid control scenario, "
+         "under CBMC's pointer/bounds/use-after-free checks, --memory-leak-check and the translator's UB assertions; every other claimed "
+         "harness runs under the same memory checks.",
+         "Programs that fail to compile (parser/lexer value stack) are outside; the construct-exactly-once shadow map of the state area was not "
+         "built (double construction shows up only as a leak or a use-after-free); nsw/nuw overflow flags are not asserted (DESIGN 0.6).", '0.3'),
  'C16': ("coverage.cc as one inductive step from an arbitrary canonical pre-state of K runs: add/remove/is_covered/is_overlap/intersect/operator+,-,== "
          "against a membership oracle with a symbolic probe address, INV (ascending, disjoint, non-adjacent, non-empty) proved inductive; all values "
          "symbolic inside a 2^6 (quick) / 2^8 (thorough) window placed at 0, around 2^32, around 2^63 and just below 2^64-1; K<=2-3 quick, 3-4 thorough.",
@@ -43,9 +55,7 @@ NA = {
  'C06': "needs the libdw contract model and attribute_producer's vector/scheduling heap; not reached (DESIGN 7)",
  'C07': "at_value's form dispatch calls into libdw at every step; only leaf kernels would be encodable and were not reached (DESIGN 7)",
  'C10': "op_tr_closure keeps a std::set<shared_ptr<stack>> ordered by value comparison: control depends on symbolic data, and CBMC's symbolic execution of merged C++ heap states did not terminate (DESIGN 2.5)",
- 'C11': "core words are overload instantiations over value_str/value_seq with std::string/std::vector heaps; stack-profile and selector kernels not reached in time (DESIGN 7)",
  'C12': "needs two state buffers over one operator graph with a symbolic schedule, i.e. merged control over the C++ heap, which CBMC's symbolic execution does not get through (DESIGN 2.5)",
- 'C13': "cross-cutting: every claimed harness runs with CBMC's pointer/bounds checks and the translator's UB assertions, but the lifecycle shadow map and abandonment harnesses were not built, so the property is not claimed",
  'C14': "lexer+parser as a whole are out of reach for the solver route (DESIGN 7); the numeric kernels and API wrappers were not reached in time",
  'C15': "needs lexer/parser and execution of both sides; tree::simplify over vector<tree> not reached (DESIGN 7)",
  'C17': "needs the libdw contract model (location lists, abbreviations); not reached (DESIGN 7)",
